@@ -465,7 +465,7 @@ NATIVE_NOTE = "Trusted base: the harness itself (element type, ledger, model wri
 
 MANIFEST_TEXT = {
     "C01": {"technique": "runtime monitoring: real crate vs executable deque model after every call (exhaustive small-scope sweep + seeded random histories), debug+release",
-            "text": "Every API operation is executed on the real buffer from every (capacity, front slot, length) for N<=4 (quick) / N<=7 (thorough), reached by up to 7 construction routes, with boundary/out-of-range arguments, and compared after the call with a sequential model written from the docs: return value by element identity, contents by identity and value through every view. Random hostile histories extend this to long sequences and N=16/61/1000. Exploration is the right level: the state space per capacity is tiny and enumerated completely, larger capacities are sampled.",
+            "text": "Every API operation is executed on the real buffer from every (capacity, front slot, length) for N<=5 debug / N<=6 release (quick), N<=7 / N<=8 (thorough), three element types (with destructor hook, wide and 32-aligned, without drop glue), reached by up to 7 construction routes, with boundary/out-of-range arguments, and compared after the call with a sequential model written from the docs: return value by element identity, contents by identity and value through every view. Random hostile histories extend this to long sequences and N=16/61/1000; the zero-sized-element workload extends it to capacities up to usize::MAX. Exploration is the right level: the state space per capacity is tiny and enumerated completely, larger capacities are sampled.",
             "design_ref": "DESIGN.md 4/C01", "note": NATIVE_NOTE},
     "C02": {"technique": "runtime monitoring: identity-tracking tokens + ledger on every push/try_push of the sweep and random histories",
             "text": "All push/try_push calls of the C01 executions (all N including 0, every layout and length, both ends) judged by element identity: the returned element must be that very displaced/rejected token, Err iff is_full() before the call, and the ledger shows if the argument was silently destroyed.",
@@ -477,7 +477,7 @@ MANIFEST_TEXT = {
             "text": "Each (state, call) is run under every filling of the unoccupied slots (natural stale bytes, 0x00/0xFF/0x5A, byte copies of dead and of live elements), every construction route and every front slot; canonical traces must be equal and no injected copy may ever be touched, cloned, compared or destroyed.",
             "design_ref": "DESIGN.md 4/C04", "note": NATIVE_NOTE + " Slot geometry is calibrated from element addresses and self-checked; if the check fails poking is disabled and the evidence says so."},
     "C05": {"technique": "fault injection: k-th destructor panics once, enumerated over all destroying operations, states and k; ledger + validity + follow-ups; ASan/Miri with heap-owning elements",
-            "text": "Complete enumeration, for N<=4 (quick) / N<=6 (thorough), of which destructor call panics inside truncate/clear/fill/extend/extend_from_slice/clone_from/From<[T;M]>/collect/drop of drain, owning iterator and buffer. After the caught panic the buffer must be a valid sequence, keep working under the model, and no element may ever be destroyed twice up to the final drop.",
+            "text": "Complete enumeration, for N<=5 (quick) / N<=7 (thorough), of which destructor call panics inside truncate/clear/fill/extend/extend_from_slice/clone_from/From<[T;M]>/collect/drop of drain, owning iterator and buffer. After the caught panic the buffer must be a valid sequence, keep working under the model, and no element may ever be destroyed twice up to the final drop.",
             "design_ref": "DESIGN.md 4/C05", "note": NATIVE_NOTE + " One fault per execution."},
     "C06": {"technique": "fault injection: k-th clone/closure/iterator/eq/cmp/hash/fmt call panics once, enumerated; ledger leak accounting at teardown",
             "text": "Complete enumeration of the panicking user-code invocation for every operation that runs user code, every layout (free space in one or two segments) and argument length; afterwards validity, follow-ups under the model, and nothing created during the case may remain alive once the buffer is dropped.",
@@ -486,7 +486,7 @@ MANIFEST_TEXT = {
             "text": "After every operation of the sweep and random histories all views are read for positions 0..=len+1 and usize::MAX and every sub-range, and must agree with each other and the model by identity and address; one write through each mutable view must change exactly that position.",
             "design_ref": "DESIGN.md 4/C07", "note": NATIVE_NOTE},
     "C08": {"technique": "runtime monitoring: exhaustive next/next_back script enumeration with len/size_hint/clone oracles at every step",
-            "text": "Complete enumeration (N<=5 quick, N<=7 thorough) of layouts x ranges in every RangeBounds form x scripts of length <= selected+2 for the five iterator kinds.",
+            "text": "Complete enumeration (N<=5 debug / 6 release quick, N<=7/8 thorough) of layouts x ranges in every RangeBounds form x scripts over {next, next_back} of length <= selected+2, plus scripts with nth/nth_back steps, for the five iterator kinds.",
             "design_ref": "DESIGN.md 4/C08", "note": NATIVE_NOTE},
     "C09": {"technique": "runtime monitoring: complete drain configuration space vs model with identity + ledger; ASan/Miri over the raw-copy back-fill",
             "text": "Every layout x range x consumption script (N<=5 quick, N<=8 thorough), drain dropped after the script: yields, len per step, final contents by identity, drained-but-unyielded elements destroyed exactly once, follow-ups.",
@@ -498,10 +498,10 @@ MANIFEST_TEXT = {
             "text": "Every call of the sweep (N=0 first-class, indices up to usize::MAX, all bound-kind pairs incl. Excluded(usize::MAX)/Included(usize::MAX)) must panic iff documented, and a documented panic must leave contents and addresses unchanged; debug and release judged separately.",
             "design_ref": "DESIGN.md 4/C11", "note": NATIVE_NOTE + " Termination is only observed as 'the call returned within the run'; a hang shows as a timeout = inconclusive."},
     "C12": {"technique": "runtime monitoring: constructors/conversions vs model by identity, drop log for discarded elements, source/copy independence in both drop orders",
-            "text": "All array sizes M in 0..=2N+1 and iterator lengths, every source layout for clone/to_vec/into_iter, every (destination x source) layout pair for clone_from, for N<=5 (quick) / N<=8 (thorough).",
+            "text": "All array sizes M in 0..=2N+3 and iterator lengths (with exact and inexact size hints), every source layout for clone/to_vec/into_iter, every (destination x source) layout pair for clone_from, for N<=6 (quick) / N<=10 (thorough), with and without drop glue.",
             "design_ref": "DESIGN.md 4/C12", "note": NATIVE_NOTE},
     "C13": {"technique": "runtime monitoring: exhaustive product of capacities x layouts x contents against slice semantics, with a call-sequence-recording hasher",
-            "text": "Complete product for capacities 0..=4 (quick) / 0..=6 (thorough) of both sides' layouts and contents over a 2 (3) symbol alphabet, so every physical split of A meets every split of B in all branches of the alignment code.",
+            "text": "Complete product for capacities 0..=5 (quick) / 0..=6 (thorough) of both sides' layouts and contents over a 2 (3) symbol alphabet, so every physical split of A meets every split of B in all branches of the alignment code.",
             "design_ref": "DESIGN.md 4/C13", "note": NATIVE_NOTE},
     "C14": {"technique": "runtime monitoring: std::io calls vs VecDeque<u8> model over exhaustive bounded interleavings + random sequences",
             "text": "Every layout x every sequence of write/read/fill_buf/consume/flush of depth 3 (4 thorough) at N<=3, shallower at N<=16, random at N up to 1000, in debug and release.",
